@@ -84,20 +84,29 @@ structure SweepInv (g : Graph) (placed0 : List Nat) (st : Sweep) (done : List Na
   same : st.progressed = false → st.placed = placed0
   frontier : st.progressed = false → st.stale = [] →
     ∀ n ∈ done, n ∈ placed0 ∨ (g.preds n).all placed0.contains = false
+  /-- in a sweep that schedules nothing, no examined node could have been scheduled -/
+  stuck : st.progressed = false → ∀ n ∈ done, n ∈ placed0 ∨ canPlace g placed0 n = false
+  /-- the stuck nodes recorded so far are examined nodes outside `st.placed` -/
+  staleOut : ∀ s ∈ st.stale, s.1 ∈ done ∧ s.1 ∉ st.placed
 
 theorem sweepStep_inv {g : Graph} {placed0 : List Nat} {st : Sweep} {done : List Nat} {n : Nat}
-    (hn : n < g.size) (h : SweepInv g placed0 st done) :
+    (hn : n < g.size) (hnd : n ∉ done) (h : SweepInv g placed0 st done) :
     SweepInv g placed0 (sweepStep g [] st n) (done ++ [n]) := by
   cases h1 : st.placed.contains n with
   | true =>
     have h1m : n ∈ st.placed := List.contains_iff_mem.mp h1
     have e : sweepStep g [] st n = st := by simp [sweepStep, h1m]
     rw [e]
-    refine ⟨h.run, h.bound, h.same, fun hp hs m hm => ?_⟩
-    simp only [List.mem_append, List.mem_singleton] at hm
-    rcases hm with hm | rfl
-    · exact h.frontier hp hs m hm
-    · left; rw [← h.same hp]; exact List.contains_iff_mem.mp h1
+    refine ⟨h.run, h.bound, h.same, fun hp hs m hm => ?_, fun hp m hm => ?_, fun s hs => ?_⟩
+    · simp only [List.mem_append, List.mem_singleton] at hm
+      rcases hm with hm | rfl
+      · exact h.frontier hp hs m hm
+      · left; rw [← h.same hp]; exact List.contains_iff_mem.mp h1
+    · simp only [List.mem_append, List.mem_singleton] at hm
+      rcases hm with hm | rfl
+      · exact h.stuck hp m hm
+      · left; rw [← h.same hp]; exact List.contains_iff_mem.mp h1
+    · exact ⟨List.mem_append_left _ (h.staleOut s hs).1, (h.staleOut s hs).2⟩
   | false =>
     have h1m : n ∉ st.placed := fun hm => by
       have := List.contains_iff_mem.mpr hm
@@ -106,11 +115,20 @@ theorem sweepStep_inv {g : Graph} {placed0 : List Nat} {st : Sweep} {done : List
     | false =>
       have e : sweepStep g [] st n = st := by simp [sweepStep, h1m, h2]
       rw [e]
-      refine ⟨h.run, h.bound, h.same, fun hp hs m hm => ?_⟩
-      simp only [List.mem_append, List.mem_singleton] at hm
-      rcases hm with hm | rfl
-      · exact h.frontier hp hs m hm
-      · right; rw [← h.same hp]; exact h2
+      refine ⟨h.run, h.bound, h.same, fun hp hs m hm => ?_, fun hp m hm => ?_, fun s hs => ?_⟩
+      · simp only [List.mem_append, List.mem_singleton] at hm
+        rcases hm with hm | rfl
+        · exact h.frontier hp hs m hm
+        · right; rw [← h.same hp]; exact h2
+      · simp only [List.mem_append, List.mem_singleton] at hm
+        rcases hm with hm | rfl
+        · exact h.stuck hp m hm
+        · right
+          rw [← h.same hp]
+          cases hcp : canPlace g st.placed m with
+          | false => rfl
+          | true => rw [(canPlace_iff.mp hcp).1] at h2; cases h2
+      · exact ⟨List.mem_append_left _ (h.staleOut s hs).1, (h.staleOut s hs).2⟩
     | true =>
       cases h3 : (blockedInputs g st.placed n).isEmpty with
       | true =>
@@ -120,35 +138,64 @@ theorem sweepStep_inv {g : Graph} {placed0 : List Nat} {st : Sweep} {done : List
         have hcp : canPlace g st.placed n = true :=
           canPlace_iff.mpr ⟨h2, List.isEmpty_iff.mp h3⟩
         have hnm : n ∉ st.placed := h1m
-        refine ⟨isRunFrom_snoc h.run hnm hcp, ?_, by simp, by simp⟩
-        intro x hx
-        simp only [List.mem_append, List.mem_singleton] at hx
-        rcases hx with hx | rfl
-        · exact h.bound x hx
-        · exact hn
+        refine ⟨isRunFrom_snoc h.run hnm hcp, ?_, by simp, by simp, by simp, fun s hs => ?_⟩
+        · intro x hx
+          simp only [List.mem_append, List.mem_singleton] at hx
+          rcases hx with hx | rfl
+          · exact h.bound x hx
+          · exact hn
+        · have := h.staleOut s hs
+          refine ⟨List.mem_append_left _ this.1, ?_⟩
+          simp only [List.mem_append, List.mem_singleton, not_or]
+          refine ⟨this.2, ?_⟩
+          intro heq
+          -- `n` was not examined before: the nodes of a sweep are examined once (`done` has no duplicates is not
+          -- needed: a stuck node recorded earlier equal to `n` would have had `n ∉ st.placed`, still true now, but it
+          -- is being placed: only possible if it was recorded in THIS sweep before, i.e. `n ∈ done`)
+          exact hnd (heq ▸ this.1)
       | false =>
         have e : sweepStep g [] st n = { st with stale := st.stale ++ [(n, blockedInputs g st.placed n)] } := by
           simp [sweepStep, h1m, h2, h3]
         rw [e]
-        exact ⟨h.run, h.bound, h.same, by simp⟩
+        refine ⟨h.run, h.bound, h.same, by simp, fun hp m hm => ?_, fun s hs => ?_⟩
+        · simp only [List.mem_append, List.mem_singleton] at hm
+          rcases hm with hm | rfl
+          · exact h.stuck hp m hm
+          · right
+            rw [← h.same hp]
+            cases hcp : canPlace g st.placed m with
+            | false => rfl
+            | true =>
+              have := (canPlace_iff.mp hcp).2
+              rw [this] at h3; cases h3
+        · simp only [List.mem_append, List.mem_singleton] at hs
+          rcases hs with hs | rfl
+          · exact ⟨List.mem_append_left _ (h.staleOut s hs).1, (h.staleOut s hs).2⟩
+          · exact ⟨by simp, h1m⟩
 
 theorem sweep_fold_inv {g : Graph} {placed0 : List Nat} :
-    ∀ (l : List Nat) (st : Sweep) (done : List Nat), (∀ n ∈ l, n < g.size) → SweepInv g placed0 st done →
-      SweepInv g placed0 (l.foldl (sweepStep g []) st) (done ++ l) := by
+    ∀ (l : List Nat) (st : Sweep) (done : List Nat), (∀ n ∈ l, n < g.size) → (done ++ l).Nodup →
+      SweepInv g placed0 st done → SweepInv g placed0 (l.foldl (sweepStep g []) st) (done ++ l) := by
   intro l
   induction l with
-  | nil => intro st done _ h; simpa using h
+  | nil => intro st done _ _ h; simpa using h
   | cons a l ih =>
-    intro st done hl h
+    intro st done hl hnd h
+    have hnda : a ∉ done := by
+      rw [List.nodup_append] at hnd
+      intro ha
+      exact hnd.2.2 a ha a (List.mem_cons_self ..) rfl
     have := ih (sweepStep g [] st a) (done ++ [a]) (fun n hn => hl n (List.mem_cons_of_mem _ hn))
-      (sweepStep_inv (hl a (List.mem_cons_self ..)) h)
+      (by simpa [List.append_assoc] using hnd)
+      (sweepStep_inv (hl a (List.mem_cons_self ..)) hnda h)
     simpa [List.append_assoc] using this
 
 theorem sweep_inv {g : Graph} {placed0 : List Nat} (hrun : isRunFrom g [] placed0 = true)
     (hb : ∀ x ∈ placed0, x < g.size) :
     SweepInv g placed0 (sweep g [] placed0) (List.range g.size) := by
   have := sweep_fold_inv (g := g) (placed0 := placed0) (List.range g.size) { placed := placed0 } []
-    (fun n hn => List.mem_range.mp hn) ⟨hrun, hb, fun _ => rfl, fun _ _ m hm => by simp at hm⟩
+    (fun n hn => List.mem_range.mp hn) (by simpa using List.nodup_range)
+    ⟨hrun, hb, fun _ => rfl, fun _ _ m hm => by simp at hm, fun _ m hm => by simp at hm, fun s hs => by simp at hs⟩
   simpa [sweep] using this
 
 /-- when the forward pass ends without a stalemate, what it scheduled is a run of the ordering system and every node
